@@ -287,10 +287,13 @@ func c20Walk(r *Run) {
 			if !ok || !((b.Op == token.EQL && nc.Truth) || (b.Op == token.NEQ && !nc.Truth)) {
 				continue
 			}
-			for _, pair := range [][2]ssa.Value{{b.X, b.Y}, {b.Y, b.X}} {
-				lq, ok1 := pair[0].(*ssa.Call)
-				ls, ok2 := pair[1].(*ssa.Call)
-				if ok1 && ok2 && calleeName(&lq.Call) == "builtin len" && calleeName(&ls.Call) == "builtin len" && lq.Call.Args[0] == qids && ls.Call.Args[0] == sent {
+			// the comparison, as an affine form, is len(qids) - len(names sent) (however it is spelled:
+			// `len(qids) != len(steps)`, `last+1 != len(steps)` with last = len(qids)-1, …)
+			if _, _, isInt := intBits(b.X.Type()); isInt {
+				wfa := p.FA(w)
+				d := wfa.Lin(b.X).Sub(wfa.Lin(b.Y))
+				want := wfa.linSym(lenOf(wfa.Sym(qids)), 0).Sub(wfa.linSym(lenOf(wfa.Sym(sent)), 0))
+				if d.Equal(want) || d.Equal(want.Scale(-1)) {
 					okCmp = true
 				}
 			}
@@ -319,27 +322,54 @@ func c20Create(r *Run) {
 			r.Undecided("entry-fid", "(cEnt)."+name, token.NoPos, "anchor not found")
 			continue
 		}
-		// every fileRef literal returned embeds the receiver (so it carries the receiver's fid)
+		// every fileRef literal returned embeds the receiver (so it carries the receiver's fid) — the literal may be
+		// built by a helper method called on the receiver (`ent.fileEnt(iounit)`)
 		n := 0
-		eachInstr(fn, func(in ssa.Instruction) {
-			a, ok := in.(*ssa.Alloc)
-			if !ok || !isP9P(a.Type(), "fileRef") || a.Comment != "complit" {
+		top := fn
+		scopes := []*ssa.Function{fn}
+		eachInstr(top, func(in ssa.Instruction) {
+			c, ok := in.(*ssa.Call)
+			if !ok {
 				return
 			}
-			flds, _, _ := allocFields(a)
-			v := flds["cEnt"]
-			n++
-			ok2 := false
-			if v != nil {
-				if u, ok := stripConv(v).(*ssa.UnOp); ok && u.Op == token.MUL && rootIsReceiver(fn, u.X) {
-					ok2 = true
-				}
-				if stripConv(v) == ssa.Value(fn.Params[0]) {
-					ok2 = true
-				}
+			g := staticCallee(&c.Call)
+			if g == nil || g.Blocks == nil || g.Pkg != top.Pkg || g == top || g.Signature.Recv() == nil || len(c.Call.Args) == 0 {
+				return
 			}
-			r.Check(ok2, "entry-fid", "cEnt."+name+": the file returned is bound to the entry's own fid", in.Pos(), "the file handle returned refers to another entry's fid")
+			if !types.Identical(g.Signature.Recv().Type(), top.Signature.Recv().Type()) {
+				return
+			}
+			recv := stripConv(c.Call.Args[0])
+			isOwn := recv == ssa.Value(top.Params[0])
+			if u, ok := recv.(*ssa.UnOp); ok && u.Op == token.MUL && rootIsReceiver(top, u.X) {
+				isOwn = true
+			}
+			if isOwn {
+				scopes = append(scopes, g)
+			}
 		})
+		for _, fn := range scopes {
+			fn := fn
+			eachInstr(fn, func(in ssa.Instruction) {
+				a, ok := in.(*ssa.Alloc)
+				if !ok || !isP9P(a.Type(), "fileRef") || a.Comment != "complit" {
+					return
+				}
+				flds, _, _ := allocFields(a)
+				v := flds["cEnt"]
+				n++
+				ok2 := false
+				if v != nil {
+					if u, ok := stripConv(v).(*ssa.UnOp); ok && u.Op == token.MUL && rootIsReceiver(fn, u.X) {
+						ok2 = true
+					}
+					if stripConv(v) == ssa.Value(fn.Params[0]) {
+						ok2 = true
+					}
+				}
+				r.Check(ok2, "entry-fid", "cEnt."+name+": the file returned is bound to the entry's own fid", in.Pos(), "the file handle returned refers to another entry's fid")
+			})
+		}
 		r.Floor("entry-fid", n, 1, "fileRef literal in cEnt."+name)
 	}
 }
